@@ -333,8 +333,21 @@ def check_and_load_args(args, parser):
         parser.print_usage()
         exit(-1)
 
+    if not args.resume:
+        clean_previous_run_locks(args)
     save_params(args)
     return args
+
+
+def clean_previous_run_locks(args):
+    # a new run invalidates the stage locks left in the output folder by a previous run before its own parameters
+    # are saved: otherwise a run killed early and continued with --resume would trust the previous run's data
+    for sample in args.input_data.samples:
+        lock_files = [sample.out_raw_file + "_lock", sample.read_group_file + "_lock"]
+        lock_files += glob.glob(sample.out_raw_file + "_*_collected") + glob.glob(sample.out_raw_file + "_*_processed")
+        for lock_file in lock_files:
+            if os.path.exists(lock_file):
+                os.remove(lock_file)
 
 
 def load_previous_run(args):
